@@ -17,7 +17,7 @@ from .core import SymNum, SymBool, Unsupported, is_sym, ite, sym_and, sym_or
 STUBS = [
     "np.zeros/ones/empty/full/array/asarray/linspace/zeros_like/ones_like/arange -> object arrays when dtype is float/unspecified",
     "np.isscalar/isclose/allclose/abs/amax/amin/max/min/maximum/minimum/sqrt/exp/cos/sin/floor/ceil/log2/sign/where/argmax/argsort/sort/isinf/isnan/float64 -> proxy-aware versions with identical semantics on reals",
-    "math.isclose/isinf/sqrt/exp/cos/sin/floor/ceil/log2/pow/fabs -> proxy-aware versions (transcendentals uninterpreted: congruence only)",
+    "math.isclose/isinf/sqrt/exp/cos/sin/floor/ceil/log2/pow/fabs, np.arctan, scipy.special.erf -> proxy-aware versions (transcendentals uninterpreted: congruence only)",
     "numpy.linalg.solve with a symbolic right-hand side -> exact rational Gaussian elimination (contract: solution of the system; singular -> LinAlgError)",
     "numpy.linalg.norm (ord inf/1/2) -> proxy-aware version (2-norm of a vector through sqrt as a fresh non-negative root)",
     "print, logging output of the library -> silenced",
@@ -134,6 +134,49 @@ def _m_log(x, base=None):
             return core.ufunc_app('log', x)
         raise Unsupported('log with base of a symbolic value')
     return _math.log(x) if base is None else _math.log(x, base)
+
+
+def _uf_any(name, concrete=None):
+    """Uninterpreted unary function for names that math does not provide under the same name."""
+    def f(x):
+        if is_sym(x):
+            x = core.SymNum.coerce(x)
+            if not x.is_const():
+                import z3
+                fn = core._UFS.get(name)
+                if fn is None:
+                    fn = core._UFS[name] = z3.Function('uf_' + name, z3.RealSort(), z3.RealSort())
+                return core.SymNum.from_z3(fn(x.z3real()))
+            x = float(x.const_value())
+        if concrete is not None:
+            return concrete(x)
+        return getattr(_math, name)(x)
+
+    return f
+
+
+class _SpecialFacade(types.ModuleType):
+    def __init__(self):
+        super().__init__('scipy_special_facade')
+
+    def __getattr__(self, name):
+        import scipy.special
+        return getattr(scipy.special, name)
+
+    @staticmethod
+    def erf(x):
+        import scipy.special
+        return _uf_any('erf', scipy.special.erf)(x)
+
+
+class _ScipyFacade(types.ModuleType):
+    def __init__(self):
+        super().__init__('scipy_facade')
+        self.special = _SpecialFacade()
+
+    def __getattr__(self, name):
+        import scipy
+        return getattr(scipy, name)
 
 
 def _m_floor(x):
@@ -342,6 +385,12 @@ class NPFacade(types.ModuleType):
         if _has_sym(x) or (isinstance(x, _np.ndarray) and x.dtype == object):
             return _map(_uf('sin'), x)
         return _np.sin(x)
+
+    @staticmethod
+    def arctan(x):
+        if _has_sym(x) or (isinstance(x, _np.ndarray) and x.dtype == object):
+            return _map(_uf_any('atan'), x)
+        return _np.arctan(x)
 
     @staticmethod
     def floor(x):
@@ -597,6 +646,7 @@ def _replacements():
         ('copysign', _math.copysign, _m_copysign),
         ('interpn', scipy.interpolate.interpn, ref_interpn),
         ('LA', _np.linalg, _LA),
+        ('scipy', __import__('scipy'), _ScipyFacade()),
     ]
 
 
